@@ -241,6 +241,12 @@ Definition recv_numbered (fx : bool) (mk : N -> bytes) (len : N) (t1 : transport
            end
   end.
 
+(* a file name that names a file IN the client's directory: not empty, no '/', not "." or ".." - everything else
+   (leading dots, several dots, blanks ...) is a good name.  Since fix (recv: do not follow a path in the name of a
+   metadata file) a metadata message with another name is read and ignored; the code as found opened the path. *)
+Definition valid_name (f : bytes) : bool :=
+  negb (list_eqb f []) && negb (existsb (N.eqb 47) f) && negb (list_eqb f [46]) && negb (list_eqb f [46; 46]).
+
 Definition recv_metadata (fx : bool) (len : N) (t1 : transport) : hres :=
   match read_all t1 4 with
   | None => lost fx
@@ -253,7 +259,8 @@ Definition recv_metadata (fx : bool) (len : N) (t1 : transport) : hres :=
                if len <? 4 + namelen then Died
                else match read_all t3 (N.to_nat (len - 4 - namelen)) with
                     | None => lost fx
-                    | Some (d, t4) => Handled (AAppend (cstr f) d) t4
+                    | Some (d, t4) => if fx && negb (valid_name (cstr f)) then Handled ANone t4
+                                      else Handled (AAppend (cstr f) d) t4
                     end
            end
   end.
@@ -570,7 +577,7 @@ Definition wf_msg (m : msg) : bool :=
   match m with
   | MDir name => nonul name && (len_of name <? INT_LIMIT)
   | MData x d | MKernel x d | MPerf x d => (x <? 4294967296) && (4 + len_of d <? INT_LIMIT)
-  | MMeta f d => nonul f && (4 + len_of f + len_of d <? INT_LIMIT)
+  | MMeta f d => nonul f && valid_name f && (4 + len_of f + len_of d <? INT_LIMIT)
   | MInfo h i => (length h =? HDR)%nat && (sizeof_uftrace_file_header + len_of i <? INT_LIMIT)
   | MEnd => true
   end.
